@@ -7,6 +7,7 @@ package main
 
 import (
 	"context"
+	"crypto/ed25519"
 	"crypto/sha256"
 	"encoding/hex"
 	"encoding/json"
@@ -194,6 +195,7 @@ type cluster struct {
 	resultCache  map[string][]byte
 	// rawResultHook sees the bytes of every result file
 	rawResultHook func(n *vnode, rb []byte)
+	crafted       int
 }
 
 var testMnemonics = []string{
@@ -483,6 +485,28 @@ func (c *cluster) proposeData(n *vnode, round string, data map[string][]byte) er
 func (c *cluster) proposeRange(n *vnode, round string, start, end int) error {
 	id, _ := hex.DecodeString(round)
 	return n.svc.ProposeSignMessages(&dto.ProposeSignBatchMessagesDTO{DkgID: id, Range: &dto.Range{Start: start, End: end}})
+}
+
+// proposeTasks posts a signing proposal with exactly these tasks, built and signed as ProposeSignMessages does (the API
+// cannot produce a repeated identifier or a mix of ranges and explicit payloads; a participant writing to the board can)
+func (c *cluster) proposeTasks(n *vnode, round string, tasks []requests.SigningTask) (string, error) {
+	inst, err := n.fsmSvc.GetFSMInstance(round, false)
+	if err != nil {
+		return "", err
+	}
+	pid, err := inst.GetIDByUsername(n.name)
+	if err != nil {
+		return "", err
+	}
+	c.crafted++
+	batch := requests.SigningBatchProposalStartRequest{BatchID: fmt.Sprintf("crafted-batch-%d", c.crafted), ParticipantId: pid, CreatedAt: time.Now(), SigningTasks: tasks}
+	bz, err := json.Marshal(batch)
+	if err != nil {
+		return "", err
+	}
+	m := storage.Message{ID: fmt.Sprintf("crafted-%d", c.crafted), DkgRoundID: round, Event: "event_signing_start", Data: bz, SenderAddr: n.name}
+	m.Signature = ed25519.Sign(n.kp.Priv, m.Bytes())
+	return batch.BatchID, n.stg.Send(m)
 }
 
 func (c *cluster) boardMessages() []storage.Message {
